@@ -1,5 +1,6 @@
 
 #include <string.h>
+#include <stdint.h>
 #include <errno.h>
 
 #include "array.h"
@@ -46,7 +47,9 @@ extern int mpt_path_last(MPT_STRUCT(path) *path)
 		--data; ++len; --pos;
 	}
 	path->off += pos;
-	path->len  = (path->first = len) + 1;
+	/* length of first element is limited to 8 bit */
+	path->first = (len > UINT8_MAX) ? 0 : len;
+	path->len   = len + 1;
 	
 	return len;
 }
